@@ -114,6 +114,8 @@ CHAIN_POOL = [
     [('split', [('delay', 2, 0), ('delay', 1, 0)], []), ('delay', 1, 1)],
     [('pipe', [('delay', 1, 2), ('delay', 2, 1)]), ('bilinear',)],
     [('split', [('pipe', [('delay', 1, 0), ('delay', 1, 0)])], [('delay', 0, 3)])],
+    # a constant column in the data a centre generator is fitted on (zero range of one feature)
+    [('const',), ('rbf', 0, 2)],
 ]
 
 
@@ -140,7 +142,8 @@ def gen_real_case(rng, cid, max_len=3, max_depth=2, allow=None, short_prob=0.0, 
         w = sg.min_samples(top)
         for _ in range(20):
             order, mode = sg.gen_layout(rng, w, short_prob=short_prob,
-                                        max_eps=max_eps if ep else 1, extra=4)
+                                        max_eps=max_eps if ep else 1, extra=4,
+                                        many=True if (ep and max_eps >= 3 and cid % 40 == 7) else None)
             if not ep:
                 order = [0] * len(order)
             if len(set(order)) >= min_eps or not ep:
@@ -149,6 +152,11 @@ def gen_real_case(rng, cid, max_len=3, max_depth=2, allow=None, short_prob=0.0, 
         if len(order) < w + 2:
             order = order + [order[-1]] * 2
         X = real_data(rng, order, ns, nu, ep)
+        if nu > 0 and rng.random() < 0.2:
+            # an unforced episode: the whole input sequence of one episode is exactly zero (zero input is
+            # an input like any other: its lifted value need not be zero)
+            lab = order[int(rng.integers(0, len(order)))]
+            X[np.array(order) == lab, (1 if ep else 0) + ns:] = 0.0
         Xfit = X
         if nu > 0 and rng.random() < 0.12:
             Xfit = np.array(X, copy=True)
